@@ -171,7 +171,7 @@ Section Struct.
                     | Some xs => Some (map (fun x => (b (fi_name fi), x)) xs ++ attrs, hascd, text, kids)
                     | None => None
                     end
-                | MCharData => match v with VStr s => Some (attrs, true, s ++ text, kids) | _ => None end
+                | MCharData => match v with VStr s => Some (attrs, true, match text with [] => s | _ => s ++ text end, kids) | _ => None end
                 | MInner => match v with VStr [] => Some (attrs, hascd, text, kids) | _ => None end
                 | MElem | MAny =>
                     match rec true (g_type f) (Some fi) child_pns v with
